@@ -24,6 +24,7 @@ const POOL: &[&str] = &[
     "src/main.rs", "src/lib.rs", "src/util_test.rs", "src/deep/a.rs", "src/deep/more/b.rs", "src/generated/g.rs",
     "tests/t_test.rs", "scripts/run.py", "scripts/tool.py", "docs/guide.md", "docs/notes.txt", "vendor/v.rs",
     "third_party/x.rs", "build.log", "ignored/skip.rs", "gen_api.rs", "Dockerfile", "data.unknownext", "empty.rs", "src/Makefile",
+    "src-gen/out.rs",
 ];
 
 fn gen_content(rng: &mut Rng, path: &str) -> String {
@@ -145,7 +146,12 @@ fn toml_list(xs: &[String]) -> String {
 
 fn render(c: &Cfg) -> String {
     let mut s = String::from("version = \"2\"\n");
-    s += &format!("[scanner]\ngitignore = {}\nexclude = {}\n", c.gitignore, toml_list(&c.scanner_exclude));
+    // `gitignore` defaults to true: half of the configurations that want it leave the key out
+    if c.gitignore && c.scanner_exclude.len() % 2 == 1 {
+        s += &format!("[scanner]\nexclude = {}\n", toml_list(&c.scanner_exclude));
+    } else {
+        s += &format!("[scanner]\ngitignore = {}\nexclude = {}\n", c.gitignore, toml_list(&c.scanner_exclude));
+    }
     s += &format!("[content]\nextensions = {}\nmax_lines = {}\nwarn_threshold = {:?}\nskip_comments = {}\nskip_blank = {}\nexclude = {}\n", toml_list(&c.extensions), c.max_lines, c.warn_threshold, c.skip_comments, c.skip_blank, toml_list(&c.content_exclude));
     if let Some(w) = c.warn_at {
         s += &format!("warn_at = {w}\n");
@@ -215,11 +221,19 @@ struct Flags {
 fn gen_flags(rng: &mut Rng) -> Flags {
     let mut f = Flags::default();
     for _ in 0..rng.below(3) {
-        match rng.below(12) {
+        match rng.below(13) {
+            12 => f.include = vec!["src".to_string(), "src-gen".to_string()],
             0 => f.max_lines = Some(*rng.pick(&[1usize, 4, 100])),
             1 => f.ext = Some(vec![(*rng.pick(&["rs", "py", "txt"])).to_string()]),
             2 => f.exclude.push((*rng.pick(&["src/deep/**", "**/*_test.rs", "scripts/**"])).to_string()),
-            3 => f.include = vec![(*rng.pick(&["src", "scripts", "src/deep"])).to_string()],
+            3 => {
+                f.include = vec![(*rng.pick(&["src", "scripts", "src/deep"])).to_string()];
+                // several targets in one call; `src-gen` has `src` as a string prefix but is its sibling
+                if rng.chance(1, 2) {
+                    f.include.push((*rng.pick(&["src-gen", "scripts", "docs"])).to_string());
+                    f.include.dedup();
+                }
+            }
             4 => f.warn_only = true,
             5 => f.wae = true,
             6 => f.strict = true,
